@@ -236,7 +236,8 @@ fn precedence(token: &T) -> Prec {
     use Prec;
 
     match token {
-        T::LeftBracket | T::Dot | T::LeftParen => Prec::Index,
+        // A prime call binds like a call with parentheses: `1 + (f)' 2`.
+        T::LeftBracket | T::Dot | T::LeftParen | T::Prime => Prec::Index,
 
         T::Star | T::Slash => Prec::Factor,
 
